@@ -140,3 +140,64 @@ def toGrammar : Sexp → Option Grammar
   | _ => none
 
 end Peg.Driver
+
+namespace Peg.Driver
+open Peg
+
+def isPlainAtom (s : String) : Bool :=
+  !s.isEmpty && s.toList.all (fun c => c.isAlphanum || c == '_')
+
+def showAtom (s : String) : String :=
+  if isPlainAtom s then s else "#" ++ hexBytes s.toUTF8.toList
+
+def showItem : StringItem → String
+  | .chr c => s!"(c {c.toNat})"
+  | .hexa a b => s!"(x {a.toNat} {b.toNat})"
+  | .simple e => "(s " ++ (match e with
+      | .newline => "n" | .cr => "r" | .tab => "t" | .backslash => "b" | .quote => "q" | .dquote => "d") ++ ")"
+  | .utf8 ds => "(u " ++ " ".intercalate (ds.map fun d => toString d.toNat) ++ ")"
+
+mutual
+def showExpr : Expr → String
+  | .choice xs => "(choice" ++ showExprs xs ++ ")"
+  | .seq xs => "(seq" ++ showExprs xs ++ ")"
+  | .group b => "(group " ++ showExpr b ++ ")"
+  | .opt b => "(opt " ++ showExpr b ++ ")"
+  | .closure b false => "(star " ++ showExpr b ++ ")"
+  | .closure b true => "(plus " ++ showExpr b ++ ")"
+  | .neg b => "(neg " ++ showExpr b ++ ")"
+  | .pos b => "(pos " ++ showExpr b ++ ")"
+  | .range a b => "(range " ++ showItem a ++ " " ++ showItem b ++ ")"
+  | .lit ins body => "(" ++ (if ins then "ilit" else "lit") ++ String.join (body.map fun i => " " ++ showItem i) ++ ")"
+  | .eoi => "(eoi)"
+  | .incl r => "(incl " ++ showAtom r ++ ")"
+  | .field nm bx typ =>
+    "(field " ++ (match nm with
+      | none => "-"
+      | some .override => "@"
+      | some (.ident n) => "(id " ++ showAtom n ++ ")") ++ " " ++ (if bx then "1" else "0") ++ " " ++ showAtom typ ++ ")"
+def showExprs : List Expr → String
+  | [] => ""
+  | e :: es => " " ++ showExpr e ++ showExprs es
+end
+
+def showDirective : Directive → String
+  | .string => "string" | .noSkipWs => "no_skip_ws" | .export => "export" | .position => "position"
+  | .memoize => "memoize" | .leftrec => "leftrec"
+  | .check p => "(check" ++ String.join (p.map fun x => " " ++ showAtom x) ++ ")"
+
+def showRuleEntry : RuleEntry → String
+  | .rule r => "(rule (dirs" ++ String.join (r.directives.map fun d => " " ++ showDirective d) ++ ") " ++ showAtom r.name ++ " " ++ showExpr r.definition ++ ")"
+  | .charRule r =>
+    "(charrule (checks" ++ String.join (r.directives.map fun c => " (" ++ " ".intercalate (c.map showAtom) ++ ")") ++ ") " ++
+      showAtom r.name ++ " (parts " ++ " ".intercalate (r.choices.map fun p => match p with
+        | .range a b => "(range " ++ showItem a ++ " " ++ showItem b ++ ")"
+        | .chr a => "(chr " ++ showItem a ++ ")"
+        | .ident n => "(id " ++ showAtom n ++ ")") ++ "))"
+  | .externRule r =>
+    "(extern (fn " ++ " ".intercalate (r.function.map showAtom) ++ ") " ++
+      (match r.returnType with | some p => "(ret " ++ " ".intercalate (p.map showAtom) ++ ")" | none => "(noret)") ++ " " ++ showAtom r.name ++ ")"
+
+def showGrammar (g : Grammar) : String := "(grammar " ++ " ".intercalate (g.rules.map showRuleEntry) ++ ")"
+
+end Peg.Driver
